@@ -17,6 +17,11 @@ EXTENDS Common, TLC
 
 CONSTANTS MaxLen
 
+\* sizes standing for isize::MAX, isize::MAX + 1, usize::MAX - 1, usize::MAX (the harness maps a model
+\* value v >= 100 to the real value with the same distance from its anchor, DESIGN §3-2).  Every size
+\* larger than the slice behaves alike in R, so the choice of the four values only matters to the code.
+BigNs == {127, 128, 254, 255}
+
 Kinds == {"iter", "copied", "windows", "chunks", "rchunks", "chunks_exact", "rchunks_exact", "array_chunks"}
 ExactKinds == {"chunks_exact", "rchunks_exact", "array_chunks"}
 
@@ -46,8 +51,9 @@ StdRemainder(k, l, sz) ==
 -----------------------------------------------------------------------------
 (* M *)
 Init ==
-    /\ kind \in Kinds /\ len \in 0..MaxLen /\ n \in 1..(MaxLen + 1)
+    /\ kind \in Kinds /\ len \in 0..MaxLen /\ n \in 1..(MaxLen + 1) \cup BigNs
     /\ (kind \in {"iter", "copied"} => n = 1)
+    /\ (kind = "array_chunks" => n <= MaxLen + 1)
     /\ fwd = TRUE /\ hist = <<>>
     /\ CASE kind = "chunks_exact" \/ kind = "array_chunks" ->
               \* let at = len - len % n; (slice, rem) = split_at(slice, at)   |  as_chunks
@@ -136,6 +142,13 @@ Refines ==
                 = SubSeq(Remaining, 1, Len(Remaining) - 1)
 
 RemainderInv == kind \in ExactKinds => <<rlo, rhi>> = StdRemainder(kind, len, n)
+
+\* every intermediate value of the index arithmetic of M stays within the slice length, hence within
+\* usize whatever the size n is: the code may not form n + something or round up to a multiple of n
+ArithInv ==
+    LET mid == {L, SatSub(L, n), L % n, IF L = 0 THEN 0 ELSE ((L - 1) \div n) * n,
+                IF n > L THEN 0 ELSE lo + n, IF n > L THEN 0 ELSE hi - n}
+    IN \A x \in mid : 0 <= x /\ x <= len
 
 \* every yielded window lies inside the remaining slice (C01)
 ItemsInside == /\ IsSome(FrontStep.item) => lo <= FrontStep.item.some[1] /\ FrontStep.item.some[2] <= hi
